@@ -387,6 +387,15 @@ func (db *RedisPermanent) mergeTempDatabaseFromLeveldb(ctx context.Context, temp
 
 	db.basePermanent.mergeTempCaches(temp.stcache, temp.instateoperationcache)
 
+	// NOTE purge old items from stcache
+	if err := temp.iterStateKeys(func(stateKey string) (bool, error) {
+		db.basePermanent.removeStateFromCache(stateKey)
+
+		return true, nil
+	}); err != nil {
+		return e.Wrap(err)
+	}
+
 	db.Log().Info().Interface("blockmap", temp.mp).Msg("new block merged")
 
 	return nil
